@@ -8,6 +8,7 @@
 namespace gs
 {
     Markers cfg_markers(int codec);
+    int cfg_key_mode();
     Receiver *make_cfg_receiver(int codec, uint8_t *buf, int cap);
     int cfg_encode_raw(int codec, const uint8_t *data, size_t n, uint8_t *out);
     int cfg_encode_raw_v(int codec, struct iovec *vec, size_t cnt, uint8_t *out);
@@ -86,6 +87,9 @@ namespace gs
             return make_cfg_receiver(codec, buf, cap);
         return new LegacyReceiver(buf, cap);
     }
+
+    // the legacy receiver is a plain C struct: its fields are its public interface
+    int key_mode(int codec) { return codec == LEGACY ? 0 : cfg_key_mode(); }
 
     bool has_entry(int codec, int entry) { return codec != LEGACY || entry == RAW; }
 
